@@ -156,6 +156,7 @@ type Lab struct {
 
 	// freeze of the periodic tasks (see FreezePeriodic)
 	frozen    atomic.Bool
+	abandoned atomic.Bool
 	frzMu     sync.Mutex
 	parked    map[string]bool
 	frzRelase chan struct{}
@@ -187,6 +188,9 @@ func New(opt Options) *Lab {
 
 // Close removes the hook; nodes must have been stopped by the caller.
 func (l *Lab) Close() {
+	if l.abandoned.Load() {
+		return
+	}
 	l.Unfreeze()
 	rchord.VerifSetHook(nil)
 	if l.mnet != nil {
@@ -536,8 +540,16 @@ func onStack(frag string) bool {
 	return strings.Contains(string(buf[:n]), frag)
 }
 
+// Abandon gives the lab up: a node is wedged for good (a call into it holds one of its locks and
+// will never return), so making the nodes leave would block as well. StopAll and Close become
+// no-ops; the goroutines stay behind until the process ends.
+func (l *Lab) Abandon() { l.abandoned.Store(true); l.Unfreeze() }
+
 // StopAll makes every running node leave (best effort) so goroutines end.
 func (l *Lab) StopAll() {
+	if l.abandoned.Load() {
+		return
+	}
 	l.Unfreeze()
 	for _, m := range l.All() {
 		if !m.Stopped() {
